@@ -252,11 +252,11 @@ func main() {
 		steps = 4
 	}
 	c.Cov["bounds"] = map[string]any{"tier": c.Tier, "configs": len(cfgs), "max_descent_steps_below_argument": steps,
-		"alphabet": "absent null true 0 -1 1 2147483647 -2147483648 2147483648 -2147483649 9223372036854775807 9223372036854775808 -9223372036854775808 -9223372036854775809 1.0 1.5 1e3 \"1\" \"-1\" \"1.5\" \"abc\" \"\" \"true\" RED red \"RED\" [] [good] [good,good2] [good,null] [null] [each scalar] [[good]] [[]] [good,[good]] {} {required} {required,f:good|null|{}} {required,unknown:1} {unknown:1} {required:null}",
+		"alphabet": "absent null true 0 -1 1 2147483647 -2147483648 2147483648 -2147483649 9223372036854775807 9223372036854775808 -9223372036854775808 -9223372036854775809 1.0 1.5 1e3 \"1\" \"-1\" \"1.5\" \"abc\" \"\" \"true\" RED red \"RED\" [] [good] [good,good2] [good,null] [null] [each scalar] [[good]] [[]] [good,[good]] {} {required} {required,f:good|null|{}} {required,unknown:1} {unknown:1} {required:null}; numeric positions (Int Float ID IntID UintID and the scalars bound to graphql.Int32/Int64/Uint/Uint32/Uint64/Float, also as list elements) additionally: 4294967295 4294967296 18446744073709551615 18446744073709551616, the strings \"0\" and every 32/64-bit signed/unsigned boundary and its neighbour as a string, \"1e3\" \"1.0\" \"NaN\" \"Infinity\" \"-inf\"",
 		"modes":    "literal; whole argument through a variable; variable nested in a literal object/list; variable with default; non-null variable; nullable variable at a defaulted non-null position"}
 	c.Assume = []string{
 		"gqlparser's parser is trusted to turn query text into AST; validation and coercion are part of what is checked",
-		"Int is Go int (64 bit on this platform): gqlgen documents this binding (docs/content/reference/scalars.md, FIXME in codegen/config/config.go); 32-bit bounds are demanded only of the probe's I32 scalar (graphql.Int32)",
+		"Int is Go int (64 bit on this platform): gqlgen documents this binding (docs/content/reference/scalars.md, FIXME in codegen/config/config.go); the probe scalars I32/I64/U/U32/U64/F bound to graphql.Int32/Int64/Uint/Uint32/Uint64/Float have Int (resp. Float) semantics with exactly the range of their Go type: the resolver receives the mathematical value sent or the request is rejected",
 		"a JSON number written with fraction/exponent but integral value (1.0, 1e3) for Int/ID may be taken as that integer or rejected (transport number representation); both are accepted, a different integer is not",
 		"an integer token beyond 64 bits may be rejected where the specification sets no range (Float, ID, custom scalar)",
 		"`[$v]` with $v not provided: element null or rejection are both accepted (the 2021 text does not define it)",
